@@ -28,6 +28,11 @@ impl TimeUntil for Instant {
     }
 }
 
+/// The longest timeout handed to a deadline timer. The timer wheel behind `DelayQueue` panics on
+/// timeouts beyond roughly 2.18 years; deadlines further out are tracked as if they were this far
+/// away.
+pub(crate) const MAX_TIMEOUT: Duration = Duration::from_secs(2 * 365 * 24 * 60 * 60);
+
 /// Collection compaction; configurable `shrink_to_fit`.
 pub trait Compact {
     /// Compacts space if the ratio of length : capacity is less than `usage_ratio_threshold`.
